@@ -15,7 +15,7 @@ MUTATING = {
 
 
 class Step:
-    __slots__ = ("op", "wire", "real", "model", "pre", "post", "diverged", "why")
+    __slots__ = ("op", "wire", "real", "model", "pre", "post", "diverged", "why", "model_post")
 
     def __init__(self, op):
         self.op = op
@@ -26,6 +26,7 @@ class Step:
         self.post = None
         self.diverged = False
         self.why = None
+        self.model_post = None
 
 
 class Lockstep:
@@ -104,6 +105,7 @@ class Lockstep:
             d = diff_snap(ms, st.post, "", self.tol)
             if d:
                 st.diverged, st.why = True, "state" + d
+                st.model_post = ms      # (its exact phases are needed to recognise a float-boundary case)
         self.steps.append(st)
         return st
 
@@ -114,23 +116,28 @@ def is_float_ambiguous(step: Step) -> bool:
     import math
 
     phs = []
-    for snap in (step.pre, step.post):
+    for snap in (step.pre, step.post, step.model_post):
         if not snap:
             continue
         for c in snap["chans"]:
             for s in c["slots"]:
                 if s["k"] == "P":
-                    phs.append(float(Fraction(s["ph"])))
+                    phs.append(Fraction(s["ph"]))
         for l in snap["refs"].values():
             for q in l:
-                phs.extend(float(Fraction(p)) for _, p in q["tr"])
+                phs.extend(Fraction(p) for _, p in q["tr"])
+    # (compared as exact rationals: the model's phases differ from the implementation's rounded ones by
+    # less than a float can show)
     phs = sorted(set(phs))
     two_pi = 2 * math.pi
     for i, a in enumerate(phs):
         for b in phs[i + 1:]:
-            d = abs(a - b) % two_pi
+            if a == b:
+                continue
+            d = abs(float(a - b)) % two_pi
             d = min(d, two_pi - d)
-            if 0 < d < 1e-9:
+            if d < 1e-9:
                 return True
+    phs = [float(p) for p in phs]
     # phases within 1e-9 of the wrap-around point
     return any(0 < min(p, two_pi - p) < 1e-9 for p in phs)
